@@ -7,7 +7,7 @@ import itertools
 
 from ..interp import const, cval, has_const
 from ..source import norm_text
-from .common import walk_no_nested
+from .common import def_map, expand, walk_no_nested
 from .geo import uniq_events
 
 FEG = 'gemdat.path.free_energy_graph'
@@ -94,7 +94,9 @@ def check_moves(ctx, R1='R1', R6='R6'):
             src = varg
         ok = None
         msg = 'neighbour expression not recognised'
+        orig_src = src
         if src is not None:
+            src = expand(src, def_map(fi.node), keep=('data', 'node', 'move'))
             mods = [b for b in ast.walk(src) if isinstance(b, ast.BinOp) and isinstance(b.op, ast.Mod)]
             npmods = [c for c in ast.walk(src) if isinstance(c, ast.Call) and norm_text(c.func).split('.')[-1] in ('mod', 'remainder') and len(c.args) == 2]
             cands = [(b.left, b.right) for b in mods] + [(c.args[0], c.args[1]) for c in npmods]
@@ -102,6 +104,12 @@ def check_moves(ctx, R1='R1', R6='R6'):
                 ok, msg = False, 'the neighbour index is not reduced modulo the grid shape: paths cannot cross the periodic cell faces'
             for l, r in cands:
                 rv = it.last.get(id(r)) or it.value_of(r)
+                if rv is None:
+                    # expanded copy: look the modulus up by text in the original function
+                    for cand in ast.walk(fi.node):
+                        if isinstance(cand, ast.Attribute) and norm_text(cand) == norm_text(r) and it.value_of(cand) is not None:
+                            rv = it.last.get(id(cand)) or it.value_of(cand)
+                            break
                 if rv is not None and rv.shapeof is not None:
                     # the shape must be that of the array the node energies are read from
                     data_nodes = [x for x in uniq_events(it, {'graph_add_node'}, lambda f: f.qualname == FEG)]
@@ -111,7 +119,7 @@ def check_moves(ctx, R1='R1', R6='R6'):
                         ok, msg = None, 'wrapped expression is not node + move'
                 elif rv is not None:
                     ok, msg = None, f'modulus `{norm_text(r)}` is not the shape of the energy array'
-        ctx.ob(R6, fi, src if src is not None else e['node'], ok, msg)
+        ctx.ob(R6, fi, orig_src if orig_src is not None else e['node'], ok, msg)
 
 
 def check_dispatch(ctx):
